@@ -6,6 +6,8 @@
    same grants as `run` on exhaustive single steps and on random histories.
    isEn = false : RoundRobinArbiter,  isEn = true : RoundRobinArbiterEn.  n = nreqs (any n >= 2). *)
 From PV Require Import Base.Prelude Lib.Arbiter Lib.ArbiterProofs.
+(* generated-from-source instances proved equal to the hand model at small parameters *)
+From PV Require Import Props.C19_gen.
 (* (comment line kept directly after the Require line: harness/common.py closure() parses up to it) *)
 Local Open Scope nat_scope.
 
